@@ -184,6 +184,9 @@ def judge_region(gc, m):
     return out, int(U.shape[1]), int(k.sum())
 
 
+HISTORY_BAD = []
+
+
 def quad_estimate(gc, m1, m2, m4s):
     g = make_geom(gc)
     res = []
@@ -197,6 +200,13 @@ def quad_estimate(gc, m1, m2, m4s):
             g.throw(np.stack([U1, U2, U3, U4]))
             n = int(g.event_mask.sum())
             r = g.mcintegral(np.full(n, np.inf), np.cos(gc["cone"]) * (1 - 1e-15), np.ones(n), 0.0, 1.0, 1.0)
+            if m4 == m4s[0]:
+                # history on one throw (compute() integrates twice per throw): a call with a narrower cone in between
+                # must not change what the next call returns
+                g.mcintegral(np.full(n, np.inf), np.cos(0.5 * gc["cone"]), np.ones(n), 0.0, 1.0, 1.0)
+                r2 = g.mcintegral(np.full(n, np.inf), np.cos(gc["cone"]) * (1 - 1e-15), np.ones(n), 0.0, 1.0, 1.0)
+                if float(r2[1]) != float(r[1]):
+                    HISTORY_BAD.append((float(r[1]), float(r2[1])))
         res.append(float(r[1]))
     # error of the equal-weight rule in the singular dimension behaves like m4^(-1/2): Richardson for ratio 4
     return 2 * res[-1] - res[-2], res, len(U1)
@@ -215,6 +225,9 @@ def judge_quadrature(gc, levels, m4s):
     out = []
     if not (abs(ext[-1] - A) <= tol):
         out.append(("quadrature_converges_to_aperture", "mcintegral geo-only", float(A), float(ext[-1])))
+    if HISTORY_BAD:
+        out.append(("estimator_independent_of_call_history", "second call on the same throw", HISTORY_BAD[0][0], HISTORY_BAD[0][1]))
+        del HISTORY_BAD[:]
     return out, dict(A_ref=A, A_ref_err=Aerr, Q=ext, tol=tol, rel=float(ext[-1] / A - 1)), npts
 
 
@@ -224,8 +237,8 @@ def config_lattice(tier):
 
     if tier == "quick":
         alts = [5.0, 33.0, 525.0]
-        limbs = lambda a: [7.0 if aH(a) > 8 else 0.5 * aH(a), 0.5]
-        cones = [3.0, 30.0, 60.0]
+        limbs = lambda a: [7.0 if aH(a) > 8 else 0.5 * aH(a), 0.5, 0.6 * aH(a)]
+        cones = [3.0, 30.0]
         azs = [90.0, 360.0]
     else:
         alts = [0.1, 1.0, 5.0, 33.0, 525.0, 2000.0, 36000.0]
